@@ -242,3 +242,15 @@ Proof.
   destruct (default_reactor_total false ex_inp_d ex_tpl_x _ _ _ (proj1 ex_default_tpl_okb) eq_refl F1 eq_refl (proj1 (proj2 (proj2 (proj2 ex_default_end_to_end_hyps))))) as (A' & _).
   split; [exact A'|]. split; [exact A|]. split; [exact (B _)|exact C].
 Qed.
+
+(** no pair ids: _explicit_h is the identity (the SynRule object of ex_tpl_x applied backwards) *)
+Example ex_no_pairs :
+  nocrash ex_inp_ob /\ spec_its ex_inp_ob = Some (map fst (spec_glued ex_inp_ob)) /\ length (spec_glued ex_inp_ob) = 1%nat /\
+  explicit_h_ord sort_N (invert_template ex_rc_s) = Some (invert_template ex_rc_s, []).
+Proof.
+  assert (Hel : forall k a, In (k, a) (gnodes ex_tpl_x) -> a_el (iH a) = a_el (iG a)).
+  { intros k a I. simpl in I. destruct I as [I|[I|[I|[]]]]; inversion I; reflexivity. }
+  destruct (synrule_object_backward_total false ex_inp_ob ex_tpl_x ex_rc_s ex_l_s ex_r_s (proj1 ex_default_mode_hyps) eq_refl Hel
+              eq_refl eq_refl eq_refl (proj1 ex_synrule_object_backward_hyps)) as (A & _ & C).
+  split; [exact A|]. split; [exact C|]. split; [reflexivity|]. apply explicit_h_no_pairs. apply invert_no_pairs.
+Qed.
